@@ -21,7 +21,8 @@ def run(ctx):
         "Conn operations: as C11 (list-offsets and ApiVersions are covered by correspondence only)",
         "fetch: a response at the high watermark carries an empty set; message-set reader conserves bytes and does not panic (observed, not proved)",
         "protocol.ReadResponse: ok only after discardAll left remain = 0 (contract, sampled on every registered API/version)",
-        "'blocks beyond its deadline' is observed with a watchdog (5 s deadline, 30 s watchdog), not proved",
+        "'blocks beyond its deadline' is observed with watchdogs (2-5 s deadlines, 3-30 s watchdogs; each scenario family stops after ~5 blocked cases), not proved; the lock-release facts that rule out blocking on rlock are proved in Props/C11 over regenerated facts",
+        "split requests: the expected merged result is computed by the C19 builder's model (Model/ListOffsets.lean; Props/C19 entries_exact, failure_isolated)",
         "Transport LTS: events are the existing verifEvent(\"T.*\") hook points of transport.go; Grab/Release/Remove are recorded under connGroup.mutex, Recv/Done/Exit on the connection's goroutine",
         "Transport keeps a failed INITIAL metadata state until its next refresh (MetadataTTL, 40 ms in the driver): follow-up calls are retried for up to 3 s",
         "fetch_cut_no_panic: a connection cut presents message_reader.go with the token stream `truncate` of Spec/Layout.lean (C02's bytes<->tokens tie)",
@@ -30,6 +31,12 @@ def run(ctx):
     ok, log = ctx.extract("connlegacy", ["lean/KafkaVerif/Gen/ConnLegacy.lean"])
     if not ok:
         broken.append({"kind": "obligation", "name": "translator go/extract connlegacy", "detail": log[-1500:]})
+        # the code left the translatable subset: keep searching for a failing input with the last committed model
+        # (the model of the unchanged code) so that the report carries a concrete replay, not only the broken obligation
+        import subprocess, os
+        subprocess.run(["git", "checkout", "--", "lean/KafkaVerif/Gen/ConnLegacy.lean"],
+                       cwd=os.path.dirname(os.path.dirname(os.path.abspath(__file__))), capture_output=True)
+        ctx.notes.append("translator failed: correspondence run against the committed Gen/ConnLegacy.lean")
     res = ctx.prove(MODULE)
     if not res["ok"]:
         broken.append({"kind": "obligation", "theorems": res["failed"], "detail": res["reasons"][:10]})
